@@ -3,6 +3,7 @@
 # expect a VIOLATION (exit 1); undo the patch. Also runs the clean tree first.
 # usage: selftest/run.sh [name-filter]
 cd /verif
+export GOVC_OBL_TIMEOUT=${GOVC_OBL_TIMEOUT:-8}
 filter=${1:-}
 fail=0
 clean() { git -C /repo checkout -- . ; }
